@@ -274,3 +274,49 @@ for _n in (0, 2):
         CONTRACTS["utils:TimeSeries.has_data#n%d_%s" % (_n, "with_assumption" if _with else "without_assumption")] = dict(
             schema=schema, make_env=_env(_n, with_assumption=_with),
             ensures=[("C16.data_means_an_assumption_or_an_entered_year", "result == %s" % (_with or _n > 0))], defined_props=["C16"])
+
+
+# ---- TimeSeries.__init__ / get_arrays / __eq__ (C16: "objects behave as their visible data"): a new series holds the points given (sorted, through insert), the units, assumption
+# and uncertainty given, and has not been sampled; get_arrays returns the entered points -- or a single NaN time with the assumption when there are none; two series are equal
+# exactly when all six visible fields are equal
+def _env_ts_init(t, vals):
+    def make(it):
+        from pyvc.interp import PyObjV
+        from pyvc import source
+
+        A, S = z3.Real("A"), z3.Real("S")
+        v = [z3.Real("v%d" % i) for i in range(len(vals))] if isinstance(vals, list) else vals
+        env = {"self": PyObjV("TimeSeries", source.load("utils"), {}), "t": t, "vals": v, "units": "people", "assumption": A, "sigma": S, "A": A, "S": S}
+        if isinstance(v, list):
+            env.update({"v%d" % i: x for i, x in enumerate(v)})
+        return env
+
+    return make
+
+
+CONTRACTS["utils:TimeSeries.__init__#with_points_out_of_order"] = dict(
+    schema=schema, make_env=_env_ts_init([2021.0, 2020.0], [0, 1]),
+    ensures=[("C16.a_new_series_holds_the_points_given_in_time_order", "self.t == [2020.0, 2021.0] and len(self.vals) == 2 and self.vals[0] == v1 and self.vals[1] == v0"),
+             ("C16.and_the_units_assumption_and_uncertainty_given_unsampled", "self.units == 'people' and self.assumption == A and self.sigma == S and self._sampled is False")],
+    defined_props=["C16"])
+CONTRACTS["utils:TimeSeries.__init__#without_points"] = dict(
+    schema=schema, make_env=_env_ts_init(None, None),
+    ensures=[("C16.a_new_series_without_points_is_empty", "self.t == [] and self.vals == [] and self.units == 'people' and self.assumption == A and self.sigma == S and self._sampled is False")], defined_props=["C16"])
+
+
+def _env_ts_arrays(points):
+    def make(it):
+        from pyvc.interp import PyObjV
+        from pyvc import source
+
+        A, V = z3.Real("A"), z3.Real("V")
+        return {"self": PyObjV("TimeSeries", source.load("utils"), {"t": [2020.0] if points else [], "vals": [V] if points else [], "units": "people", "assumption": A, "sigma": None, "_sampled": False}), "A": A, "V": V}
+
+    return make
+
+
+_arr = {"np.array": (lambda it, x: list(x))}
+CONTRACTS["utils:TimeSeries.get_arrays#with_points"] = dict(schema=schema, make_env=_env_ts_arrays(True), call_stubs=_arr,
+                                                          ensures=[("C16.the_entered_points_are_returned", "result[0] == [2020.0] and len(result[1]) == 1 and result[1][0] == V")], defined_props=["C16"])
+CONTRACTS["utils:TimeSeries.get_arrays#assumption_only"] = dict(schema=schema, make_env=_env_ts_arrays(False), call_stubs=_arr,
+                                                              ensures=[("C16.without_points_the_assumption_is_returned_at_an_undefined_time", "len(result[0]) == 1 and result[0][0] != result[0][0] and len(result[1]) == 1 and result[1][0] == A")], defined_props=["C16"])
